@@ -53,8 +53,24 @@ LongToneFailed(e) ==
   LET ph == R(e.ph.p, e.ph.q)
   IN (IF e.outlen # OutLen(e.N) THEN {"length"} ELSE {})
      \cup (IF \E i \in 1..Len(e.ms) : ~CClose(e.ys[i], ToneOutBig(e.N, e.w, ph, e.ms[i]), Budget(e)) THEN {"tone"} ELSE {})
+(* real-sampled stream of rawlen samples: the reader has rawlen \div 2 samples (an odd last raw      *)
+(* sample has no partner), its time_length and stop_time say so, the whole stream and its last     *)
+(* sample can be read, anything beyond is refused                                                  *)
+ReaderLenFailed(e) ==
+  LET want == e.rawlen \div 2
+      rate == R(e.rate.p, e.rate.q)
+      Samples(d, k) == RLe(RAbs(RSub(RMul(R(d.p, d.q), rate), RI(k))), RQ(1, 1000))
+  IN (IF e.len # want \/ e.shape0 # want THEN {"length"} ELSE {})
+     \cup (IF ~Samples(e.tl, want) THEN {"time_length"} ELSE {})
+     \cup (IF ~Samples(e.stop, want) THEN {"stop_time"} ELSE {})
+     \cup (IF ~REq(RMul(rate, RI(2)), R(e.rawrate.p, e.rawrate.q)) THEN {"sample_rate"} ELSE {})
+     \cup (IF e.full # "ok" \/ e.fulllen # want THEN {"read-all"} ELSE {})
+     \cup (IF e.last # "ok" THEN {"read-last"} ELSE {})
+     \cup (IF e.beyond1 # "EOFError" \/ e.beyond2 # "EOFError" THEN {"bounds"} ELSE {})
+     \cup {k \in DOMAIN e.flags : ~e.flags[k]}
 Failed(e) ==
   CASE e.ev = "r2c" -> R2cFailed(e)
+    [] e.ev = "readerlen" -> ReaderLenFailed(e)
     [] e.ev = "longreal" -> LongRealFailed(e)
     [] e.ev = "longtone" -> LongToneFailed(e)
     [] e.ev = "dtype" -> DtypeFailed(e)
